@@ -697,8 +697,9 @@ pub fn build_stream(rng: &mut Rng, tier: u32) -> LiveBuilt {
 
 #[derive(Clone, Copy, Debug)]
 enum TOp {
-    /// read with time-out `ms`, nothing is sent: must fail with TimedOut, not before `ms`
-    Idle { ms: u64 },
+    /// read with a time-out of `us` microseconds (whole and non-integral milliseconds; sub-millisecond in the race family:
+    /// `AtomicDuration` rounds up since the F2 fix), nothing is sent: must fail with TimedOut, not before the configured duration
+    Idle { us: u64 },
     /// read with a long time-out `ms`; the peer sends `n` bytes after `delay_us`: data (or, on a slow machine, a
     /// time-out that is not early – then the data must come out of a later read)
     Fed { ms: u64, delay_us: u64, n: usize },
@@ -708,7 +709,7 @@ enum TOp {
 }
 
 /// `race` = the reproducer family `io_timeout_race` for the finding "io time-out armed before the coroutine is published"
-/// (pending_fixes/io-timeout-arm-before-publish.patch): time-outs of 1–3 ms, which the perturbation of the hooked
+/// (pending_fixes/io-timeout-arm-before-publish.patch): time-outs of 0.3–3 ms, which the perturbation of the hooked
 /// operations between `add_io_timer` and `co.store` can exceed; the time-out is then lost and the read blocks for ever
 /// (reported as `hang`). The default family uses time-outs >= 20 ms, far above the widest perturbation (3 x 2 ms).
 pub fn build_timeout(rng: &mut Rng, tier: u32, race: bool) -> LiveBuilt {
@@ -719,9 +720,13 @@ pub fn build_timeout(rng: &mut Rng, tier: u32, race: bool) -> LiveBuilt {
     let mut ops = vec![];
     let mut last_ms = 0u64;
     for _ in 0..nops {
-        let small = if race { [1u64, 1, 2, 3][rng.below(4) as usize] } else { [20u64, 21, 25, 30, 33, 40, 50, 64][rng.below(8) as usize] };
+        let small = if race {
+            [300u64, 999, 1000, 1500, 2000, 3000][rng.below(6) as usize]
+        } else {
+            [20u64, 21, 25, 30, 33, 40, 50, 64][rng.below(8) as usize] * 1000 + [0u64, 0, 0, 1, 250, 500, 999][rng.below(7) as usize]
+        };
         let op = match rng.below(if last_ms > 0 { 4 } else { 3 }) {
-            0 | 1 => TOp::Idle { ms: small },
+            0 | 1 => TOp::Idle { us: small },
             2 => TOp::Fed { ms: 400 + rng.below(300), delay_us: rng.below(3000), n: 1 + rng.below(300) as usize },
             _ => TOp::After {
                 ms: if rng.chance(500) { None } else { Some(last_ms * 4 + 400) },
@@ -730,7 +735,7 @@ pub fn build_timeout(rng: &mut Rng, tier: u32, race: bool) -> LiveBuilt {
             },
         };
         last_ms = match op {
-            TOp::Idle { ms } => ms,
+            TOp::Idle { us } => us.div_ceil(1000),
             TOp::Fed { ms, .. } => ms.min(20),
             TOp::After { .. } => 0,
         };
@@ -743,7 +748,7 @@ pub fn build_timeout(rng: &mut Rng, tier: u32, race: bool) -> LiveBuilt {
         if r_co { "co" } else { "thread" },
         ops.iter()
             .map(|o| match o {
-                TOp::Idle { ms } => format!("idle{ms}"),
+                TOp::Idle { us } => format!("idle{us}us"),
                 TOp::Fed { ms, .. } => format!("fed{ms}"),
                 TOp::After { ms, .. } => format!("after{}", ms.map(|m| m.to_string()).unwrap_or("none".into())),
             })
@@ -827,12 +832,12 @@ pub fn build_timeout(rng: &mut Rng, tier: u32, race: bool) -> LiveBuilt {
                     let mut cur = 0usize;
                     let is_udp = matches!(rd, E::U(_));
                     for (k, op) in ops.iter().enumerate() {
-                        let (ms, feeds) = match *op {
-                            TOp::Idle { ms } => (Some(ms), None),
-                            TOp::Fed { ms, n, .. } => (Some(ms), Some(n)),
-                            TOp::After { ms, n, .. } => (ms, Some(n)),
+                        let (us, feeds) = match *op {
+                            TOp::Idle { us } => (Some(us), None),
+                            TOp::Fed { ms, n, .. } => (Some(ms * 1000), Some(n)),
+                            TOp::After { ms, n, .. } => (ms.map(|m| m * 1000), Some(n)),
                         };
-                        let d = ms.map(Duration::from_millis);
+                        let d = us.map(Duration::from_micros);
                         match &rd {
                             E::S(s) => s.set_read_timeout(d),
                             E::U(s) => s.set_read_timeout(d).unwrap(),
@@ -845,7 +850,7 @@ pub fn build_timeout(rng: &mut Rng, tier: u32, race: bool) -> LiveBuilt {
                         // (an earlier fed operation may have timed out on a slow machine: its data can arrive now, so
                         // "nothing arrives" is judged by what is owed, not by the kind of this operation)
                         let t0 = Instant::now();
-                        call("io.tread", ms.unwrap_or(0), 0);
+                        call("io.tread", us.unwrap_or(0), 0);
                         let r = match &mut rd {
                             E::S(s) => s.read(&mut buf),
                             E::U(s) => s.recv_from(&mut buf).map(|x| x.0),
@@ -1183,6 +1188,151 @@ pub fn build_cancel_shared(rng: &mut Rng, _tier: u32) -> LiveBuilt {
             let _ = feeder.join();
             park_sock(sock);
             park_sock(tx);
+            scenario_end(&fails)
+        }),
+    }
+}
+
+// ---------------------------------------------------------------- io_unix_iter (reproducer of a lead, not part of the default check)
+
+/// The shape of the crate's own test `os::unix::net::test::iter`, which hangs in about 2 % of looped runs under load on the
+/// unchanged tree: a coroutine accepts `n` connections one after the other on a UnixListener and reads one byte from each; a
+/// plain thread connects `n` times, writes one byte and drops the stream at once. Runs WITHOUT perturbation (it overrides the
+/// level chosen by `vh live`): sockets are dropped while their kernel tails may still run, as in the test.
+pub fn build_unix_iter(rng: &mut Rng, _tier: u32) -> LiveBuilt {
+    let seed = rng.next();
+    let n = 2 + rng.below(5) as usize;
+    let gap_us = [0u64, 0, 0, 20, 100][rng.below(5) as usize];
+    let header = format!("family=io_unix_iter conns={n} gap_us={gap_us}");
+    LiveBuilt {
+        header,
+        filter: FILTER.to_vec(),
+        hang_ms: 3000,
+        run: Box::new(move || {
+            crate::rt::live_setup(seed, 0);
+            scenario_begin();
+            let fails: Fails = Arc::new(Mutex::new(vec![]));
+            let path = format!("/tmp/vh_io_{}_{}.sock", std::process::id(), seed);
+            let _ = std::fs::remove_file(&path);
+            let listener = may::os::unix::net::UnixListener::bind(&path).unwrap();
+            let f2 = fails.clone();
+            let server = unsafe {
+                coroutine::Builder::new().name("srv".into()).stack_size(0x4000).spawn(move || {
+                    for k in 0..n {
+                        call("io.accept", 0, 0);
+                        let r = listener.accept();
+                        ret("io.accept", if r.is_ok() { 0 } else { (-4i64) as u64 });
+                        match r {
+                            Ok((mut s, _)) => {
+                                let mut b = [0u8; 1];
+                                call("io.read", 1, 0);
+                                let r = s.read(&mut b);
+                                ret("io.read", rc(&r));
+                                if !matches!(r, Ok(1)) || b[0] != k as u8 {
+                                    fail(&f2, format!("srv: connection #{k}: read returned {r:?}, byte {}", b[0]));
+                                }
+                            }
+                            Err(e) => fail(&f2, format!("srv: accept #{k} failed: {e:?}")),
+                        }
+                    }
+                })
+            }
+            .unwrap();
+            KEEP.lock().unwrap().push(server.coroutine().clone());
+            for k in 0..n {
+                call("io.connect", 0, 0);
+                let r = UnixStream::connect(&path);
+                ret("io.connect", if r.is_ok() { 0 } else { (-4i64) as u64 });
+                match r {
+                    Ok(mut s) => {
+                        call("io.write", 1, 0);
+                        let r = s.write(&[k as u8]);
+                        ret("io.write", rc(&r));
+                        if !matches!(r, Ok(1)) {
+                            fail(&fails, format!("main: write #{k} returned {r:?}"));
+                        }
+                    }
+                    Err(e) => fail(&fails, format!("main: connect #{k} failed: {e:?}")),
+                }
+                if gap_us > 0 {
+                    std::thread::sleep(Duration::from_micros(gap_us));
+                }
+            }
+            if server.join().is_err() {
+                fail(&fails, "srv panicked".into());
+            }
+            let _ = std::fs::remove_file(&path);
+            scenario_end(&fails)
+        }),
+    }
+}
+
+// ---------------------------------------------------------------- io_unix_churn (reproducer of a finding, not part of the default check)
+
+/// FINDING reproducer: `CoIo` (UnixStream / UnixListener / UnixDatagram / the generic wrapper) drops `inner` – which closes the
+/// fd – BEFORE `io`, whose drop does EPOLL_CTL_DEL on that fd NUMBER. In between another thread can open a socket that gets the
+/// same number and register it; the late delete then removes the NEW socket's registration and that socket never sees a
+/// readiness event again: a reader blocks for ever although the data is there (pending_fixes/io-coio-close-before-epoll-del.patch).
+/// Several pairs of plain threads create Unix socket pairs, block in a read, feed it and drop both ends at once, concurrently.
+/// Runs WITHOUT perturbation (sockets are dropped while kernel tails may still run, as in the crate's own tests, which is where
+/// this was seen: `os::unix::net::test::{basic,pair,try_clone,iter}` hang in ~2 % of looped runs under load).
+pub fn build_unix_churn(rng: &mut Rng, tier: u32) -> LiveBuilt {
+    let seed = rng.next();
+    let pairs = 3 + rng.below(3) as usize;
+    let rounds = if tier > 0 { 200 } else { 60 };
+    let header = format!("family=io_unix_churn pairs={pairs} rounds={rounds}");
+    LiveBuilt {
+        header,
+        filter: FILTER.to_vec(),
+        hang_ms: 3000,
+        run: Box::new(move || {
+            crate::rt::live_setup(seed, 0);
+            scenario_begin();
+            let fails: Fails = Arc::new(Mutex::new(vec![]));
+            let mut js = vec![];
+            for p in 0..pairs {
+                let (tx, rx) = std::sync::mpsc::channel::<UnixStream>();
+                let f1 = fails.clone();
+                js.push((
+                    format!("cw{p}"),
+                    spawn_thread(&format!("cw{p}"), move || {
+                        for k in 0..rounds {
+                            let (mut a, b) = match UnixStream::pair() {
+                                Ok(x) => x,
+                                Err(e) => {
+                                    fail(&f1, format!("cw{p}: pair failed: {e:?}"));
+                                    return;
+                                }
+                            };
+                            if tx.send(b).is_err() {
+                                return;
+                            }
+                            std::thread::sleep(Duration::from_micros(30 + (k as u64 * 7) % 90));
+                            call("io.write", 1, 0);
+                            let r = a.write(&[k as u8]);
+                            ret("io.write", rc(&r));
+                            // `a` is dropped here: close, then the late EPOLL_CTL_DEL
+                        }
+                    }),
+                ));
+                let f2 = fails.clone();
+                js.push((
+                    format!("cr{p}"),
+                    spawn_thread(&format!("cr{p}"), move || {
+                        for k in 0..rounds {
+                            let Ok(mut b) = rx.recv() else { return };
+                            let mut buf = [0u8; 4];
+                            call("io.read", 4, 0);
+                            let r = b.read(&mut buf);
+                            ret("io.read", rc(&r));
+                            if !matches!(r, Ok(1)) || buf[0] != k as u8 {
+                                fail(&f2, format!("cr{p}: round {k}: read returned {r:?}"));
+                            }
+                        }
+                    }),
+                ));
+            }
+            join_all(js, &fails);
             scenario_end(&fails)
         }),
     }
